@@ -380,7 +380,8 @@ def get_confirmed_edges_for_node(graph: nx.MultiDiGraph, node: DSGNode, include_
     while len(to_walk) > 0:
         walk_node = to_walk.pop()
         for out_edge in iter_out_edges(graph, walk_node):
-            if get_edge_type(out_edge) == EdgeType.INCOMPATIBILITY:
+            # Only derivation and connection edges confirm their target node
+            if get_edge_type(out_edge) in (EdgeType.INCOMPATIBILITY, EdgeType.EXCLUDES):
                 continue
 
             # Stop at choice nodes
